@@ -62,6 +62,8 @@ def r_stmt(s, ind=""):
         return "%s%s %s = %s;" % (ind, k, s["n"], r_expr(s["e"]))
     if k == "asg":
         return "%s%s = %s;" % (ind, s["n"], r_expr(s["e"]))
+    if k == "asgsub":
+        return "%s%s[%s] = %s;" % (ind, s["n"], r_expr(s["i"]), r_expr(s["e"]))
     if k == "wprop":
         o = s["o"]
         base = r_expr(o) if o["k"] in ("obj", "rd", "lv") else "(" + r_expr(o) + ")"
@@ -96,6 +98,22 @@ def r_stmt(s, ind=""):
             t += ind + head + "\n" + "".join(r_stmt(x, ind + "  ") + "\n" for x in body)
         return t + ind + "}"
     raise ValueError("stmt kind " + k)
+
+
+def with_comments(text, style):
+    """the same body with a comment between every two lines (style 1: block comments, 2: line comments, 3: trailing line comments): comments never matter"""
+    lines = text.split("\n")
+    if len(lines) < 2:
+        return text
+    out = []
+    for i, l in enumerate(lines):
+        if style == 3 and i < len(lines) - 1 and not l.rstrip().endswith(("{", ":")) and l.strip():
+            out.append(l + " // c%d" % i)
+        else:
+            out.append(l)
+        if i < len(lines) - 1 and style in (1, 2):
+            out.append("      /* c%d */" % i if style == 1 else "      // c%d" % i)
+    return "\n".join(out)
 
 
 def r_body(body, ind="    "):
